@@ -226,6 +226,13 @@ pub fn corpus(tier: Tier) -> Vec<String> {
         v.push(s.to_string());
     }
     v.extend(keyword_prefix_corpus());
+    // every string of <= 4 symbols over the line-break alphabet inside every run-consuming construct
+    // (a flag set by one character and consumed by a later one: CR .. LF with text or a reference between)
+    for (pre, post) in [("<a>", "</a>"), ("<a b='", "'/>"), ("<a b=\"", "\"/>"), ("<a b=", ">"), ("<!--", "-->"), ("<?p ", "?>"), ("<a><![CDATA[", "]]></a>"), ("<!DOCTYPE a SYSTEM '", "'>"), ("<!DOCTYPE a PUBLIC \"", "\">"), ("<", ">"), ("<a ", "='1'/>")] {
+        for t in crate::c03::small_strings(&["\r", "\n", "x", "&amp;", "\0"], 4) {
+            v.push(format!("{pre}{t}{post}"));
+        }
+    }
     v.sort();
     v.dedup();
     v
